@@ -39,6 +39,10 @@ fn inproc(idx: u64, what: String) {
 }
 
 /// decoding arbitrary bytes/strings: Err, or a value whose representation is canonical
+fn f2_to_10(f: &F10) -> Repr<10> {
+    f.repr().clone()
+}
+
 fn decode_checks(idx: u64, r: &mut Rng, good_json: &str, good_bin: &[u8]) {
     // mutated human-readable stream
     let mut j: Vec<u8> = good_json.as_bytes().to_vec();
@@ -241,9 +245,26 @@ fn one(idx: u64, seed: u64) -> String {
                 Ok(back) if back.precision() == f.precision() => {}
                 _ => inproc(idx, "postcard round trip of FBig lost the precision".to_string()),
             }
+            // floats of unlimited precision (the constants, with_precision(0), const-constructed numbers) are values a
+            // medium has to carry like any other
+            let fu: F10 = match r.below(4) {
+                0 => F10::ONE,
+                1 => F10::NEG_ONE,
+                2 => f.clone().with_precision(0).value(),
+                _ => F10::from_repr(f2_to_10(&f), dashu_float::Context::new(0)),
+            };
+            let fu2: F2 = if r.bool() { f2.clone().with_precision(0).value() } else { F2::NEG_ONE };
+            let (pfu, pfu2) = (postcard::to_allocvec(&fu).unwrap(), postcard::to_allocvec(&fu2).unwrap());
+            rt!(F10, fu, pfu);
+            rt!(F2, fu2, pfu2);
+            // (the human-readable form is the printed number, which carries no precision; only the binary form stores it)
+            match postcard::from_bytes::<F10>(&pfu) {
+                Ok(a) if a.precision() == 0 => {}
+                a => inproc(idx, format!("postcard round trip of an FBig of unlimited precision ({:?}) changed the precision: {:?}", fu.repr(), a.map(|v| v.precision()))),
+            }
             decode_checks(idx, r, &serde_json::to_string(&q).unwrap(), &pq);
             decode_checks(idx, r, &serde_json::to_string(&ia).unwrap(), &pi);
-            format!("serde {} bin={}|{}|{}|{}|{}|{}", j, hexs(&pu), hexs(&pi), hexs(&pq), hexs(&px), hexs(&pf), hexs(&pr))
+            format!("serde {} bin={}|{}|{}|{}|{}|{}|{}|{}", j, hexs(&pu), hexs(&pi), hexs(&pq), hexs(&px), hexs(&pf), hexs(&pr), hexs(&pfu), hexs(&pfu2))
         }
         14 => {
             // bounds-only operation: the enclosure must hold in this build (the bounds themselves may differ)
